@@ -165,7 +165,9 @@ class Dnf(walkers.dag.DagWalker):
             big_conjunction = [lit for conj in conj_list for lit in conj]
             simp = self._simplifier.simplify(self.manager.And(big_conjunction))
             if simp.is_true():
-                return []
+                # one disjunct is a tautology: the whole disjunction is TRUE,
+                # i.e. a single empty conjunction (an empty list would mean FALSE)
+                return [[]]
             elif simp.is_false():
                 pass
             elif simp.is_and():
